@@ -23,6 +23,39 @@ var bodyFiles = map[string]*facts.BodyFile{
 		Fns: []*facts.FnSpec{
 			{Dir: "channel", Name: "getProcessReadBufSearchDepth", Lean: "getProcessReadBufSearchDepth"},
 			{Dir: "channel", Name: "processReadBuf", Lean: "processReadBuf"},
+			{Dir: "channel", Recv: "Channel", Name: "processOut", Lean: "processOut",
+				Doc: "`ret` = `c.ReturnChar`, `stripP` = `c.PromptPattern.ReplaceAll(·, nil)`.",
+				Binders: "(ret : Bytes) (stripP : Bytes → Bytes)",
+				Vals:    map[string]facts.Val{"recv.ReturnChar": {Lean: "ret", Ty: "bytes"}},
+				Funcs: map[string]facts.LibFn{
+					"recv.PromptPattern.ReplaceAll": {Args: []string{"bytes", "bytes"}, Ret: []string{"bytes"},
+						Lits: map[int]string{1: ""}, Tmpl: "(stripP %0)"},
+				}},
+		},
+	},
+	// C01: util/bytes.go
+	"BodiesUtil.lean": {
+		Imports:   []string{"ScrapliModel.Bytes"},
+		Namespace: "Scrapli.Gen.Bodies.Util",
+		Fns: []*facts.FnSpec{
+			{Dir: "util", Name: "bytesRoughlyContainsIterOutputForInputChar", Lean: "bytesRoughlyContainsIterOutputForInputChar"},
+			{Dir: "util", Name: "BytesRoughlyContains", Lean: "bytesRoughlyContains",
+				Funcs: map[string]facts.LibFn{
+					"bytesRoughlyContainsIterOutputForInputChar": {Args: []string{"byte", "bytes"}, Ret: []string{"bool", "bytes"},
+						Tmpl: "(bytesRoughlyContainsIterOutputForInputChar %0 %1)", Partial: true},
+				}},
+		},
+	},
+	// C02: response/netconf.go
+	"BodiesResponse.lean": {
+		Imports:   []string{"ScrapliModel.Bytes"},
+		Namespace: "Scrapli.Gen.Bodies.Response",
+		Fns: []*facts.FnSpec{
+			{Dir: "response", Recv: "NetconfResponse", Name: "record1dot0", Lean: "record1dot0",
+				Doc:     "`raw` = `r.RawResult`; state: `result` = `r.Result`.",
+				Binders: "(raw : Bytes)",
+				Vals:    map[string]facts.Val{"recv.RawResult": {Lean: "raw", Ty: "bytes"}},
+				State:   []facts.StateVar{{Key: "recv.Result", Lean: "result", Ty: "bytes"}}},
 		},
 	},
 	// C05: channel/channel.go
